@@ -834,6 +834,21 @@ FUNCTIONS += [
         ret_rules=[(r'^trompeloeil_lifetime_monitor\.leak\(\)$', '(head, older_of)')],
     ),
     dict(
+        name='null_on_move_copy_ctor', cxx='null_on_move<T>::null_on_move(null_on_move const&)', file=MOCK, module='NullOnMoveCopyCtor',
+        header=r'null_on_move\(\s*null_on_move const&\)\s*noexcept',
+        require=[(r'struct null_on_move\s*\{.*?\n\s*T\*\s*p\s*=\s*nullptr;', 'the member is no longer declared `T* p = nullptr;`')],
+        lean_sig='{μ : Type} (other : Option μ) : Option μ',
+        # no member initialiser, empty body: the new object has the default member initialiser's value, whatever `other` holds
+        prologue=['let p : Option μ := none'], epilogue='return p',
+    ),
+    dict(
+        name='null_on_move_move_ctor', cxx='null_on_move<T>::null_on_move(null_on_move&&)', file=MOCK, module='NullOnMoveMoveCtor',
+        header=r'null_on_move\(\s*null_on_move&&\)\s*noexcept',
+        require=[(r'struct null_on_move\s*\{.*?\n\s*T\*\s*p\s*=\s*nullptr;', 'the member is no longer declared `T* p = nullptr;`')],
+        lean_sig='{μ : Type} (other : Option μ) : Option μ',
+        prologue=['let p : Option μ := none'], epilogue='return p',
+    ),
+    dict(
         name='null_on_move_assign_ptr', cxx='null_on_move<T>::operator=(T*)', file=MOCK, module='NullOnMoveAssignPtr',
         header=r'operator=\(\s*T\*\s*t\)\s*noexcept',
         lean_sig='{μ : Type} (t : Option μ) (p0 : Option μ) : Option μ',
